@@ -3,6 +3,7 @@ package main
 import (
 	"fmt"
 	"go/types"
+	"sort"
 	"strings"
 
 	"golang.org/x/tools/go/ssa"
@@ -49,6 +50,9 @@ func (f *Frame) doCall(st *State, site ssa.CallInstruction, common *ssa.CallComm
 	c := f.c
 	if b, ok := common.Value.(*ssa.Builtin); ok {
 		return f.builtin(st, site, b, common, args)
+	}
+	if f.contract != nil && f.caller == nil && len(f.contract.CallAssert) > 0 {
+		f.callAsserts(st, site, common, args, fnv)
 	}
 	if f.topFrame().onCall != nil {
 		f.topFrame().onCall(f, st, site, args)
@@ -114,6 +118,76 @@ func (f *Frame) doCall(st *State, site ssa.CallInstruction, common *ssa.CallComm
 	return f.unknownCall(st, common, "function value")
 }
 
+// assumeFreshIn: the reference parts of an extern result denote objects allocated by that call.
+func (f *Frame) assumeFreshIn(st *State, v *Val, lo int) {
+	c := f.c
+	in := func(r Term) Term {
+		return Or(Eq(r, TNull), And(ILe(IntLitI(int64(lo)), RefRoot(r)), ILt(RefRoot(r), IntLitI(int64(lo+256)))))
+	}
+	switch v.K {
+	case KScalar:
+		if v.T.Sort == SRef {
+			c.Assume(st.reach, in(v.T), "extern result is a fresh allocation")
+		}
+	case KSlice:
+		c.Assume(st.reach, And(in(v.Base), Eq(v.Off, c.idxLit(0))), "extern result is a fresh allocation")
+	case KTuple:
+		for _, x := range v.F {
+			f.assumeFreshIn(st, x, lo)
+		}
+	}
+}
+
+// calleeLabel: a printable name of the called function or method.
+func calleeLabel(common *ssa.CallCommon) string {
+	if common.IsInvoke() {
+		return ifaceMethodName(common)
+	}
+	if fn := common.StaticCallee(); fn != nil {
+		return fnKey(fn)
+	}
+	return "function value"
+}
+
+// callAsserts: site obligations attached to call sites of the function under contract. The k-th
+// matching call is counted in source order; the receiver of a method call is `recv`, the
+// arguments are arg0, arg1, ...
+func (f *Frame) callAsserts(st *State, site ssa.CallInstruction, common *ssa.CallCommon, args []*Val, fnv *Val) {
+	c := f.c
+	for _, ca := range f.contract.CallAssert {
+		if !strings.Contains(calleeLabel(common), ca.Callee) {
+			continue
+		}
+		var sites []ssa.CallInstruction
+		for _, b := range f.fn.Blocks {
+			for _, in := range b.Instrs {
+				if ci, ok := in.(ssa.CallInstruction); ok {
+					if _, isB := ci.Common().Value.(*ssa.Builtin); !isB && strings.Contains(calleeLabel(ci.Common()), ca.Callee) {
+						sites = append(sites, ci)
+					}
+				}
+			}
+		}
+		sort.Slice(sites, func(i, j int) bool { return sites[i].Pos() < sites[j].Pos() })
+		if ca.K >= len(sites) || sites[ca.K] != site {
+			continue
+		}
+		in := site.(ssa.Instruction)
+		sc := &Scope{c: c, fr: f, st: st, old: f.entry, vars: map[string]*Val{}, at: in.Block(), anyLoop: true, pkg: f.fn.Pkg}
+		for i, a := range args {
+			sc.vars[fmt.Sprintf("arg%d", i)] = a
+		}
+		if fnv != nil {
+			sc.vars["recv"] = fnv
+		}
+		where := fmt.Sprintf("call.%s.%d", sanitize(ca.Callee), ca.K)
+		t := f.evalSpecBool(sc.asGoal(), ca.Cl, where)
+		o := c.Oblige("assert", where+"."+ca.Cl.Name, st.reach, t, c.W.fset.Position(in.Pos()), "site obligation: "+ca.Cl.Src)
+		o.Inputs = f.inputTerms()
+		c.Assume(st.reach, f.evalSpecBool(sc.asAssumption(), ca.Cl, where), "site obligation "+ca.Cl.Name+" (proved as "+o.Name+")")
+	}
+}
+
 func ifaceMethodName(common *ssa.CallCommon) string {
 	recvT := common.Value.Type()
 	return shortTypeName(recvT) + "." + common.Method.Name()
@@ -138,6 +212,19 @@ func (f *Frame) callStatic(st *State, site ssa.CallInstruction, common *ssa.Call
 	key := fnKey(callee)
 	if m, ok := c.W.models[key]; ok {
 		return m(f, st, site, args)
+	}
+	if why, ok := c.W.externFrames[key]; ok {
+		c.W.noteAssumed("extern " + key + " leaves the verified heap unchanged, result unconstrained: " + why)
+		lo := birthBase + c.nextObj + 1
+		c.allocFrame(st)
+		if rt := resultType(common); rt != nil {
+			r := c.freshVal("ext."+callee.Name(), rt)
+			if c.W.externFresh[key] {
+				f.assumeFreshIn(st, r, lo)
+			}
+			return r
+		}
+		return nil
 	}
 	if neutral(key) {
 		return f.neutralCall(st, common, key)
@@ -435,6 +522,13 @@ func (f *Frame) copyRange(st *State, dBase, dOff, sBase, sOff, n Term, et types.
 				return
 			}
 		}
+	}
+	if isAggregate(et) {
+		// aggregate elements, symbolic count: the copied window of the destination becomes
+		// unconstrained (a sound over-approximation; nothing is then known about the copies)
+		c.note("symbolic-length copy of %s elements abstracted: destination window havocked", et)
+		f.havocLocs(st, []Loc{{kind: "elems", sl: &Val{K: KSlice, Base: dBase, Off: dOff, Len: n, Cap: n}, ty: et}})
+		return
 	}
 	// symbolic length: the destination array is replaced by an array constrained
 	// by a quantified axiom over the index alone
